@@ -30,16 +30,13 @@ def history(rng, t, oob_kind):
             ln += 1; appended = True
         elif r < 5:
             i = rng.below(2 * ln) - ln
-            body.append(Set(Idx(V("d"), Call("ix", I("i32", i))), I(t, wrap(t, rng.below(100)))))
+            body.append(Set(Idx(V("d"), opaque_ix(rng, i)), I(t, wrap(t, rng.below(100)))))
         elif r < 8:
             i = rng.choice([-ln, -1, 0, ln - 1, rng.below(2 * ln) - ln])
-            body.append(Print(Idx(V("d"), Call("ix", I("i32", i)))))
+            body.append(Print(Idx(V("d"), opaque_ix(rng, i))))
         elif r < 10:
             # compile-time-known index valid for the CURRENT length
-            if appended and static is not None:
-                i = rng.below(static)                                  # F12 region avoided
-            else:
-                i = rng.choice([rng.below(ln), ln - 1, -1, -ln, rng.below(2 * ln) - ln])
+            i = rng.choice([rng.below(ln), ln - 1, -1, -ln, rng.below(2 * ln) - ln])       # also positions that exist only thanks to appends
             if rng.below(3) == 0: body.append(Set(Idx(V("d"), I("i32", i)), I(t, wrap(t, rng.below(100)))))
             body.append(Print(Idx(V("d"), I("i32", i))))
         elif r < 11:
@@ -55,12 +52,23 @@ def history(rng, t, oob_kind):
             body.append(Print(Len(V("d"))))
     body.append(Print(Len(V("d"))))
     if oob_kind == "read":
-        body += [Print(I("i32", 4242)), Print(Idx(V("d"), Call("ix", I("i32", rng.choice([ln, ln + 1, -ln - 1, 2147483647, -2147483648]))))), Print(I("i32", 1))]
+        j = rng.choice([ln, ln + 1, -ln - 1, 2147483647, -2147483648, 4294967296, 4294967296 + rng.below(ln), -4294967296, 4294967295, 9223372036854775807])
+        body += [Print(I("i32", 4242)), Print(Idx(V("d"), opaque_ix(rng, j))), Print(I("i32", 1))]
     elif oob_kind == "write":
-        body += [Print(I("i32", 4242)), Set(Idx(V("d"), Call("ix", I("i32", rng.choice([ln, -ln - 1, ln + 7])))), I(t, 1)), Print(I("i32", 1))]
+        j = rng.choice([ln, -ln - 1, ln + 7, 4294967296 + rng.below(ln), -4294967297])
+        body += [Print(I("i32", 4242)), Set(Idx(V("d"), opaque_ix(rng, j)), I(t, 1)), Print(I("i32", 1))]
     mk = Fn("mk", [("n", "i32")], TD(t), Let("r", TD(t), ALit(I(t, 0))), Let("j", "i32", I("i32", 1)),
             While(Bin("lt", "i32", V("j"), V("n")), Append(V("r"), Cast("i32", t, Bin("mul", "i32", V("j"), I("i32", 3)))), Set(V("j"), Bin("add", "i32", V("j"), I("i32", 1)))), Ret(V("r")))
-    return Prog(Fn("ix", [("k", "i32")], "i32", Ret(V("k"))), mk, Main(*body))
+    return Prog(Fn("ix", [("k", "i32")], "i32", Ret(V("k"))), Fn("ix64", [("k", "i64")], "i64", Ret(V("k"))), Fn("ixu", [("k", "u32")], "u32", Ret(V("k"))), mk, Main(*body))
+
+
+def opaque_ix(rng, i):
+    """an index value the compiler cannot see through, of type i32, i64 or u32 (the wider types when the value needs them, or at random)"""
+    if -2147483648 <= i <= 2147483647 and rng.below(3):
+        return Call("ix", I("i32", i))
+    if 0 <= i <= 4294967295 and rng.below(2):
+        return Call("ixu", I("u32", i))
+    return Call("ix64", I("i64", i))
 
 
 def string_history(rng):
@@ -210,7 +218,7 @@ def main():
                 "i32/i64/u8/i16; one third end in an out-of-bounds read, one third in an out-of-bounds write; string indexing cases; both targets; non-trivial = histories that must panic",
         "samples": [ms[0].get("text", "")[:400]], "stats": st,
     }
-    write_evidence(PID, "proof", cov, assumptions=["index expressions have type i32 (wider index types: known finding F13)", "compile-time-known indices are only used before any append (known finding F12)"],
+    write_evidence(PID, "proof", cov, assumptions=["index expressions have type i32, i64 or u32 (F13 was fixed in /repo)", "compile-time-known indices are used at every point of a history (F12 was fixed in /repo)"],
                    violations=len(rep.violations))
     return rep.finish()
 
